@@ -27,6 +27,17 @@ pub fn gen(tier: &str, seed: u64, emit: &mut dyn FnMut(String)) {
             emit(format!("P12 {}", hex(&mk(&mut rng, b1, pid as u8, b3, b4))));
         }
     } }
+    // constant filler behind the header (stuffing as real multiplexers emit it: flags byte 0x00 / 0xff / PCR flag / random, then
+    // all 0xff or all 0x00) x every value of header byte 3 x boundary adaptation_field_lengths: an accessor that looks at
+    // the bytes behind the header to decide what the header means shows here
+    for b3 in 0..=255u8 { for b4 in [0u8, 1, 2, 100, 181, 182, 183, 184, 255] {
+        for flags in [Some(0x00u8), Some(0xff), Some(0x10), None] { for fill in [0xffu8, 0x00] {
+            let (b1, b2) = (rng.byte(), rng.byte());
+            let mut p = vec![fill; 188];
+            p[0] = 0x47; p[1] = b1; p[2] = b2; p[3] = b3; p[4] = b4; p[5] = flags.unwrap_or_else(|| rng.byte());
+            emit(format!("P12 {}", hex(&p)));
+        } }
+    } }
     // bad sync bytes
     for s in 0..=255u8 {
         let mut p = rng.bytes(188); p[0] = s;
